@@ -411,6 +411,7 @@ def run(ctx):
         facts = ctx.facts(cfg)
         reemit.accounting_rule(ctx, facts, cfg, 'C07.a', RS, havoc=4)
         reemit.rewrite_on_every_path_rule(ctx, facts, cfg, 'C07.a', RS, ('Renamer::copy_with_replaced_name', 'Compress::copy_compressed_name_with_base_offset'), floor=3)
+        reemit.names_on_every_path_rule(ctx, facts, cfg, 'C07.i', RS, ('Renamer::copy_with_replaced_name',), 'comparing it with the source name')
         reemit.dispatch_rule(ctx, facts, cfg, 'C07.b', RS, 'renaming')
         default_arm_rule(ctx, facts, cfg)
         reemit.cursor_rule(ctx, facts, cfg, 'C07.c', [TOP])
